@@ -41,28 +41,28 @@ type propConf struct {
 }
 
 var props = map[string]propConf{
-	"C10": {Harness: "hstream", Level: "exploration", QuickRuns: 24000, ThorRuns: 1500000, QuickSecs: 45, ThorSecs: 900,
+	"C10": {Harness: "hstream", Level: "exploration", QuickRuns: 24000, ThorRuns: 1500000, QuickSecs: 300, ThorSecs: 900,
 		Rule:   "Each run is one simulated execution of the real util.MessageStream (reader, 25 parsers, writer, shutdown and drain goroutines) against a scripted connection. Scenario and schedule are derived from splitmix(VERIF_SEED, property, run index): 0-400 well-formed frames (sizes 8..65535 biased to 8, <64, around 2048 and multiples of it), a read-chunk plan (whole reads, 1-byte dribble, small/any random sizes, or cuts placed at frame start +0..+8, end-1 and around multiples of 2048), optional (0,nil) reads, arrival bursts in simulated time, a connection failure (EOF/reset/timeout) at a frame boundary, inside a length prefix, mid-body, after the first frame, after the last byte or before the first, optional local shutdown, consumer behaviour (eager, think time, stalls, stops) and slow parsers; the schedule strategy is uniform, sticky(p), PCT(d) or starve(class, windows) with a select-arm bias. A run counts as non-trivial when it has at least 2 frames and either a frame was split across reads or the reader was scheduled while a filled buffer was waiting for a parser; distinct = distinct digests of the complete decision+event trace.",
 		Assume: []string{"Go channel/goroutine semantics as implemented by the installed runtime", "SimConn follows *net.TCPConn semantics: Read returns n>0 or an error, never both; Write is atomic per call", "instrumenter preserves sequential semantics (the repository's unit tests pass on the instrumented copy; validated in the thorough tier)", "frames are pre-validated to parse to a non-nil message on the current tree so that codec defects are not imported into C10"}},
-	"C11": {Harness: "hstream", Level: "exploration", QuickRuns: 24000, ThorRuns: 1500000, QuickSecs: 45, ThorSecs: 900,
+	"C11": {Harness: "hstream", Level: "exploration", QuickRuns: 24000, ThorRuns: 1500000, QuickSecs: 300, ThorSecs: 900,
 		Rule:   "Each run is one simulated execution of the real util.MessageStream with 1-16 stub producer tasks submitting 0-100 messages each through the cap-1 Outbound channel (raw util.Message implementations with unique xids and PRNG bodies of 8..65535 bytes, top-level util.Buffer messages, occasional resubmission of the same object), the real writer goroutine and a scripted connection whose Write can stall in simulated time below the 10 s write deadline; a third of the runs also carry inbound traffic. Schedules as for C10. A run is non-trivial when at least 2 producers had overlapping submissions; distinct = distinct digests of the complete decision+event trace.",
 		Assume: []string{"Go channel/goroutine semantics as implemented by the installed runtime", "SimConn.Write is atomic per call (net.Conn serialises concurrent writers)", "expected bytes of library messages come from an identically constructed twin object encoded once"}},
-	"C12": {Harness: "hstream", Level: "exploration", QuickRuns: 12000, ThorRuns: 800000, QuickSecs: 45, ThorSecs: 900,
+	"C12": {Harness: "hstream", Level: "exploration", QuickRuns: 12000, ThorRuns: 800000, QuickSecs: 300, ThorSecs: 900,
 		Rule:   "Each run is one simulated execution of the real util.MessageStream fed with frames of the all-kinds corpus (an independent frame writer: every message kind openflow13.Parse decodes, every match-field, instruction, standard and Nicira action kind, multipart bodies, vendor and bundle messages, packet-in carrying Ethernet/VLAN/ARP/IPv4/IPv6+extension headers/ICMP/UDP/TCP/IGMP/DHCP/LLDP packets), a fifth of them additionally damaged in flight by one or two operators that leave them parseable; only frames the current tree parses to a non-nil message without error are used (C12 quantifies over parseable frames). The consumer holds every delivered message until the end of the run. The reuse of the input buffer is the injected fault, in two forms: natural recycling of the 50 pool buffers by later frames under slow/stalled consumers, and (half of the runs) an immediate overwrite of the whole input slice right after Parse returned. Oracles: at the instant Parse returns nothing reachable from the message points into the input buffer's backing array; at the end every held message deep-equals, and re-encodes like, a fresh control parse of a private copy of its bytes; the message's deep hash is unchanged since it was parsed. Schedules, chunkings and failures as for C10. Non-trivial as for C10; distinct = distinct digests of the complete decision+event trace.",
 		Assume: []string{"Go channel/goroutine semantics as implemented by the installed runtime", "SimConn follows *net.TCPConn semantics", "reflection walk reaches every slice/pointer/string/map reachable from a message, including unexported fields", "a decoder reached by no corpus frame is not covered (see unreached_decoders in the evidence)"}},
-	"C07": {Harness: "hstream", Level: "fault_enumeration", QuickRuns: 16000, ThorRuns: 1200000, QuickSecs: 45, ThorSecs: 900,
+	"C07": {Harness: "hstream", Level: "fault_enumeration", QuickRuns: 10000, ThorRuns: 1200000, QuickSecs: 300, ThorSecs: 900,
 		Rule:   "Fault model: frames damaged in flight by the peer or the network. Each run is one simulation in one of three classes. Stream leg (45%): 1-24 frames, three quarters of them corpus frames damaged by 1-3 operators (a marked length/count/type field set to 0,1,2,3,4,7,8,15,16,max,max-1,max/2,cur+-1,+-4,+8,*2,remaining length+-1,total(+1); truncation with the header length rewritten; byte overwrite; bit flip; aligned 16-bit overwrite; +-1/+-4 on a byte or word; duplicated or deleted 4/8/12-byte block; PRNG tail; zero/ones runs; another ofp_type or version) that keep the framing, travel through the real de-framer into the 25 real parser goroutines under a seeded schedule, followed by 1-5 valid frames that must still be delivered. Direct leg sampled (40%): 8-64 damaged byte strings (also shorter than a header, inconsistent length) handed to openflow13.Parse by a stub task. Direct leg enumerated (15%): for one corpus frame shape, truncation at every offset (with and without rewritten length) and every marked field x every replacement value. Oracles per decoder call: no panic escapes; at most 4096+32*len instrumented loop iterations+function entries; at most 1 MiB+64*len bytes requested from non-constant make(); and on the stream leg: all parser goroutines alive and every later valid frame delivered at quiescence. Non-trivial = the damaged bytes reached a decoder past the 8-byte header; distinct = distinct digests of the decision+event trace (the input bytes are folded into it).",
 		Assume: []string{"inputs are within 1-3 damage operators of a frame of the all-kinds corpus; byte strings far from every corpus frame are not explored", "CPU time inside non-instrumented callees (copy, bytes.Buffer, binary.Read) is linear in sizes bounded by the allocation budget", "instrumenter inserts a tick at every loop body, function entry and goto target of the library", "Parse returning (nil, nil) for message types it does not decode is recorded, not flagged"}},
-	"C08": {Harness: "hstream", Level: "fault_enumeration", QuickRuns: 16000, ThorRuns: 1200000, QuickSecs: 45, ThorSecs: 900,
+	"C08": {Harness: "hstream", Level: "fault_enumeration", QuickRuns: 16000, ThorRuns: 1200000, QuickSecs: 300, ThorSecs: 900,
 		Rule:   "Fault model: packets damaged or forged by network endpoints, reaching the controller inside packet-in frames. Same three run classes and damage operators as C07, applied to the packet region of hand-written packet-in frames carrying corpus packets (Ethernet, VLAN, ARP, IPv4 with options, IPv6 with hop-by-hop/routing/fragment headers and options, ICMP, UDP, TCP, IGMP v1-v3, DHCP with options, LLDP TLVs), with positions biased to the marked length-like fields (IHL, total length, next header, header-extension length, option length, hardware/protocol length, source/group counts, DHCP option lengths, TLV lengths). On the stream leg the automatically demultiplexed decoders run inside the parser goroutines and the stub controller application then runs the second-stage decoders (TCP, IGMP, DHCP, LLDP...) in the consumer task; direct legs address one decoder entry point per run with damaged bare inputs (sampled, or enumerated: every truncation offset and every marked field x every value). Oracles as C07 (no panic, tick budget, allocation budget, stream survives).",
 		Assume: []string{"inputs are within 1-3 damage operators of a packet of the corpus", "CPU time inside non-instrumented callees is linear in sizes bounded by the allocation budget", "the stub application's demux follows what controller applications do (IPv4 proto 6 -> TCP, proto 2 -> IGMP, UDP 67/68 -> DHCP, ethertype 0x88cc -> LLDP)"}},
-	"C14": {Harness: "hconc", Level: "exploration", QuickRuns: 160000, ThorRuns: 8000000, QuickSecs: 40, ThorSecs: 900, Fresh: 12,
+	"C14": {Harness: "hconc", Level: "exploration", QuickRuns: 60000, ThorRuns: 8000000, QuickSecs: 300, ThorSecs: 900, Fresh: 12,
 		Rule:    "Each run is one simulated execution of 2-64 tasks (real goroutines, one released at a time by the seeded scheduler). Every task executes a PRNG-generated program of up to 40 operations on values it alone owns: draw headers from the process-wide generator and from private generators, build messages of every kind through the library's constructors and adders, Len/MarshalBinary, openflow13.Parse of independently generated frames, packet-header decoders, registry lookups and mutation of their results. Scheduling points sit at every access to package-level variables, closure-captured variables, atomics and sync primitives inside the library (the only places where tasks working on independent values can influence each other). Strategies: PCT(depth 0-6), uniform, sticky, starvation windows; the op mix varies per run (id-heavy, codec-heavy, mixed). The first runs of every worker execute in a fresh process each so that first-use (lazy initialisation) behaviour is explored. A run is non-trivial when at least one task was pre-empted inside a library call (parked at a shared-state gate while another task ran); distinct = distinct digests of the complete decision+event trace.",
 		Assume:  []string{"Go goroutine/atomic semantics as implemented by the installed runtime (sequentially consistent atomics)", "partial-order reduction: tasks operating on independent values interact only through instrumented shared locations (package-level variables, captured variables, atomics, sync objects); interleavings elsewhere cannot change an outcome", "race detection covers instrumented locations and method calls on objects rooted in package-level variables, not arbitrary heap objects", "runs never cross the 32-bit wrap of the id counter (excluded by the property)"},
 		Real:    []string{"common (header generator, messageXid, hello)", "openflow13 constructors, encoders, decoders, Parse, field registry", "protocol encoders/decoders incl. DHCP tables", "util", "Go runtime goroutines and atomics"},
 		Stub:    []string{"caller goroutines (task programs from the PRNG)", "choice of the next goroutine at every shared-state access (seeded strategy)", "initial value of the id counter (reset per run for replay)"},
 		Measure: "abstract state = (multiset of (gate kind, gate site) over all tasks, ids issued so far); transitions = (state, state'); counts above 16384 are k-minimum-values estimates"},
-	"C15": {Harness: "hconc", Level: "exploration", QuickRuns: 60000, ThorRuns: 3000000, QuickSecs: 40, ThorSecs: 900, Fresh: 6,
+	"C15": {Harness: "hconc", Level: "exploration", QuickRuns: 60000, ThorRuns: 3000000, QuickSecs: 300, ThorSecs: 900, Fresh: 6,
 		Rule:    "Each run is one simulated execution of 2-32 tasks. Every registered field name (122, from a table transcribed from OpenFlow 1.3.5 and OVS meta-flow.h) is looked up in both mask modes in every run, dealt to the tasks in shuffled order and in random letter case, interleaved with repeated lookups of hot names, mutation of everything reachable from earlier results, re-checks of held results and message builds that use the registry. A scheduling point precedes every operation and every access to the registry variable. Oracles at each lookup: class/field/width/mask flag equal the specification table (variable-length tun_metadata: class and field only), the result is an object no earlier lookup returned; at every re-check and at the end: a held result has exactly the value its holder last gave it; happens-before race detector on library state. The pure clauses (2^32 pack/unpack inverse, completeness of the name table) are NOT decided here. Non-trivial = at least one task pre-empted inside a library call.",
 		Assume:  []string{"Go goroutine semantics as implemented by the installed runtime", "reference table transcribed correctly from OpenFlow 1.3.5 Table 12 and OVS nicira-ext.h/meta-flow.h (DESIGN.md Appendix C)", "race detection covers instrumented locations, not arbitrary heap objects; sharing of result objects is detected by identity and by observing foreign changes"},
 		Real:    []string{"openflow13.FindFieldHeaderByName and the registry", "constructors that use the registry", "Go runtime goroutines"},
@@ -129,9 +129,22 @@ func main() {
 	selftest := flag.Int("selftest", 0, "differential self-test of instrumenter + runtime: N generated programs, native vs simulated")
 	stSeeds := flag.Int("selftest-seeds", 40, "schedules per generated program in -selftest")
 	stGen := flag.Int64("selftest-gen", 1, "generator seed for -selftest")
+	detProcs := flag.Int("determinism", 0, "determinism self-test: run the same run indices of -property in this many fresh processes at GOMAXPROCS 1/4/16 and compare the per-run digests")
+	detRuns := flag.Int("determinism-runs", 150, "run indices per process in -determinism")
 	flag.Parse()
 	if *selftest > 0 {
 		os.Exit(doSelfTest(*verif, *selftest, *stSeeds, *stGen, *keep))
+	}
+	if *detProcs > 0 {
+		pc, ok := props[*prop]
+		if !ok {
+			die(2, "unknown or unclaimed property %q", *prop)
+		}
+		s := uint64(1)
+		if v, err := strconv.ParseUint(os.Getenv("VERIF_SEED"), 10, 64); err == nil {
+			s = v
+		}
+		os.Exit(doDeterminism(*repo, *verif, *prop, pc, s, *detProcs, *detRuns, *keep))
 	}
 
 	if *prepare != "" {
@@ -241,6 +254,62 @@ func doSelfTest(verif string, n, seeds int, genSeed int64, keep bool) int {
 		if simErr != nil {
 			fmt.Fprintf(os.Stderr, "vcheck: simulated run: %v\n", simErr)
 		}
+		return 1
+	}
+	return 0
+}
+
+// doDeterminism executes the same run indices in many fresh processes under different
+// GOMAXPROCS settings and compares the per-run digests (decisions + harness events + steps).
+func doDeterminism(repo, verif, prop string, pc propConf, seed uint64, procs, runs int, keep bool) int {
+	scratch := scratchDir()
+	if !keep {
+		defer os.RemoveAll(scratch)
+	}
+	res, err := build.Prepare(repo, verif, scratch, []string{pc.Harness}, os.Stdout)
+	if err != nil {
+		fmt.Fprintf(os.Stderr, "vcheck: %v\n", err)
+		return 2
+	}
+	wdir := filepath.Join(scratch, "work")
+	os.MkdirAll(wdir, 0o755)
+	outs := make([]*summary, procs)
+	errs := make([]error, procs)
+	var wg sync.WaitGroup
+	sem := make(chan struct{}, 16)
+	for k := 0; k < procs; k++ {
+		wg.Add(1)
+		go func(k int) {
+			defer wg.Done()
+			sem <- struct{}{}
+			defer func() { <-sem }()
+			args := []string{"-mode", "run", "-property", prop, "-seed", strconv.FormatUint(seed, 10), "-from", "0", "-stride", "3", "-count", strconv.Itoa(runs), "-det"}
+			if pc.Fresh > 0 {
+				args = append(args, "-fresh", "2")
+			}
+			outs[k], errs[k] = runWorker(res.Bins[pc.Harness], args, []int{1, 4, 16}[k%3], filepath.Join(wdir, fmt.Sprintf("d%d.json", k)), 30*time.Minute)
+		}(k)
+	}
+	wg.Wait()
+	for k, e := range errs {
+		if e != nil {
+			fmt.Fprintf(os.Stderr, "vcheck: process %d: %v\n", k, e)
+			return 2
+		}
+	}
+	mism := 0
+	for k := 1; k < procs; k++ {
+		for idx, h := range outs[0].DetHashes {
+			if h2, ok := outs[k].DetHashes[idx]; !ok || h2 != h {
+				mism++
+				if mism <= 10 {
+					fmt.Printf("determinism: run index %s: process 0 (GOMAXPROCS 1) digest %d, process %d (GOMAXPROCS %d) digest %d\n", idx, h, k, []int{1, 4, 16}[k%3], h2)
+				}
+			}
+		}
+	}
+	fmt.Printf("determinism: property %s: %d processes x %d run indices at GOMAXPROCS 1/4/16, %d digest mismatches\n", prop, procs, len(outs[0].DetHashes), mism)
+	if mism > 0 {
 		return 1
 	}
 	return 0
